@@ -6,7 +6,7 @@ IMPORTS = "Base Json Canon Sync SyncObs CorrC13 CorrC14"
 CASE_TYPE = "case_C14"
 MISMATCHES = "mismatches_C14"
 VIOLATIONS = "violations_C14"
-KNOWN = "known_C14"
+KNOWN = None
 SHARD = 40
 RULE = ("conflict-oriented seeded random pairs of the C13 universe (half of the shared files differ: same size / different size, "
         "older / equal / newer mtime, top level and nested; half of the shared document keys differ: flat, nested, mixed-type) x "
